@@ -89,6 +89,11 @@ def whole_query_cases(backend):
         ("too-many-labels", f"ResultTTree(ds.Select(lambda e: ({c}.Count(), 1)), ['a', 'b', 'c'], 'tree', 'file.root')"),
         ("zero-labels", f"ResultTTree(ds.Select(lambda e: {c}.Count()), [], 'tree', 'file.root')"),
         ("labels-for-scalar", f"ResultTTree(ds.Select(lambda e: {c}.Count()), ['a', 'b'], 'tree', 'file.root')"),
+        ("wrong-label-count-with-repeat-3-for-2", f"ResultTTree(ds.Select(lambda e: ({c}.Count(), 1)), ['a', 'b', 'a'], 'tree', 'file.root')"),
+        ("wrong-label-count-with-repeat-2-for-1", f"ResultTTree(ds.Select(lambda e: {c}.Count()), ['n', 'n'], 'tree', 'file.root')"),
+        ("wrong-label-count-with-repeat-4-for-3", f"ResultTTree(ds.Select(lambda e: ({c}.Count(), 1, 2)), ['x', 'y', 'z', 'y'], 'tree', 'file.root')"),
+        ("wrong-label-count-with-repeat-3-for-1", f"ResultTTree(ds.Select(lambda e: ({c}.Count(),)), ['x', 'x', 'x'], 'tree', 'file.root')"),
+        ("wrong-label-count-with-repeat-per-object", f"ResultTTree(ds.SelectMany(lambda e: {c}).Select(lambda j: (j.pt(), j.eta())), ['pt', 'eta', 'pt'], 'tree', 'file.root')"),
         ("not-a-call", "ds"),
         ("unknown-metadata-type", f"MetaData(ds, {{'metadata_type': 'no_such_thing'}}).Select(lambda e: {c}.Count())"),
         ("missing-metadata-type", f"MetaData(ds, {{'name': 'x'}}).Select(lambda e: {c}.Count())"),
